@@ -27,6 +27,8 @@ def cost(job):
     kp = kprime_of(k)
     if mode == 'full':
         return t * (0.00002 * kp ** 3 + 0.2)
+    if mode == 'light':
+        return t * (kp / 3000.0 + 0.05)
     return t * (kp / 2000.0 + 0.2)
 
 
